@@ -804,17 +804,26 @@ def _o_same_direction(ctx, np, miller, hexbox, t):
                     {'op': 'same_direction', 'idx': t, 'vects': hexbox.vects.tolist()})
 
 
-def _o_normal(ctx, np, box, label, hkl, rng):
-    """normal = unit vector along h a*+k b*+l c* (right-handed cell); perpendicular to exactly the zone-law vectors."""
+def _o_normal(ctx, np, box, label, hkl, rng, quad=None):
+    """normal = unit vector along h a*+k b*+l c* (right-handed cell); perpendicular to exactly the zone-law vectors.
+    With `quad` = (h k i l), i = -(h+k), on a hexagonal cell the four-index form is what is passed to the code: it
+    denotes the same plane, hence the same normal."""
     hkl = list(hkl)
     V = [[_F(x) for x in row] for row in box.vects]
     g, det = _recip_dir(V, hkl)
     if det <= 0:
         return
-    n, e = _call(box.plane_crystal_to_cartesian, hkl)
+    given = hkl if quad is None else list(quad)
+    n, e = _call(box.plane_crystal_to_cartesian, given)
     replay = {'op': 'normal', 'hkl': hkl, 'vects': box.vects.tolist(), 'cell': label}
+    if quad is not None:
+        replay['quad'] = given
     if e is not None:
-        ctx.violate('plane_normal:raises', f'plane_crystal_to_cartesian({hkl}) raised {e} on a {label} cell', replay)
+        ctx.violate('plane_normal:raises', f'plane_crystal_to_cartesian({given}) raised {e} on a {label} cell', replay)
+        return
+    if np.asarray(n).shape != (3,):
+        ctx.violate('plane_normal:shape', f'plane_crystal_to_cartesian({given}) on a {label} cell returned shape '
+                    f'{np.asarray(n).shape}', replay)
         return
     gn = math.sqrt(float(_fdot(g, g)))
     unit = [float(x) / gn for x in g]
@@ -830,8 +839,8 @@ def _o_normal(ctx, np, box, label, hkl, rng):
     tol = min(max(tol, 1e-12), 1e-6)
     nl = n.tolist()
     if not all(abs(a - b) <= tol for a, b in zip(nl, unit)) or abs(sum(x * x for x in nl) - 1.0) > 1e-12:
-        ctx.violate('plane_normal:reciprocal', f'normal of {hkl} in a {label} cell is {nl}, the unit reciprocal-lattice '
-                    f'direction is {unit}', dict(replay, impl=nl, expected=unit))
+        ctx.violate('plane_normal:reciprocal', f'normal of {given} in a {label} cell is {nl}, the unit reciprocal-lattice '
+                    f'direction of {hkl} is {unit}', dict(replay, impl=nl, expected=unit))
         return
     # zone law on lattice vectors
     for _ in range(4):
@@ -849,6 +858,82 @@ def _o_normal(ctx, np, box, label, hkl, rng):
             ctx.violate('plane_normal:zone', f'normal of {hkl} in a {label} cell: n.[uvw]={uvw} is {d}, zone law gives '
                         f'{want} (hu+kv+lw = {z})', dict(replay, uvw=uvw))
             return
+
+
+def _o_plane4_guard(ctx, np, hexbox, otherbox, otherlabel, q):
+    """four-index planes/vectors: rejected when h+k+i != 0 and on cells that are not hexagonal."""
+    q = list(q)
+    bad = [q[0], q[1], q[2] + 1, q[3]]
+    for nm in ('plane_crystal_to_cartesian', 'vector_crystal_to_cartesian'):
+        r, e = _call(getattr(hexbox, nm), bad)
+        if e != 'err:value':
+            ctx.violate(nm + ':guard4', f'{nm}({bad}) on a hexagonal cell is accepted ({e or np.asarray(r).tolist()}) although '
+                        'h+k+i != 0', {'op': 'plane4_guard', 'quad': q, 'hex': hexbox.vects.tolist(),
+                                       'other': otherbox.vects.tolist(), 'otherlabel': otherlabel})
+        r, e = _call(getattr(otherbox, nm), q)
+        if e != 'err:value':
+            ctx.violate(nm + ':nonhex4', f'{nm}({q}) on a {otherlabel} cell is accepted ({e or np.asarray(r).tolist()}): '
+                        'four indices only denote something in a hexagonal cell',
+                        {'op': 'plane4_guard', 'quad': q, 'hex': hexbox.vects.tolist(),
+                         'other': otherbox.vects.tolist(), 'otherlabel': otherlabel})
+
+
+def _o_guard_array(ctx, np, miller, rows, k):
+    """an array in which ONE row violates the sum guard is rejected (the conversion of that row would lose i/t)."""
+    rows = [list(r) for r in rows]
+    badrows = [list(r) for r in rows]
+    badrows[k][2] += 1
+    for nm in ('plane4to3', 'vector4to3'):
+        r, e = _call(getattr(miller, nm), np.array(badrows))
+        if e != 'err:value':
+            ctx.violate(nm + ':guard-array', f'{nm} accepts the array {badrows} although row {k} has h+k+i != 0 '
+                        f'({e or np.asarray(r).tolist()})', {'op': 'guard_array', 'rows': rows, 'k': k})
+
+
+SHAPES = [(2, 2), (2, 3), (3, 2), (4,), (1,), (1, 5), (2, 2, 2), (3, 3), (2, 1, 2), (3, 1), (1, 1, 1)]
+
+
+def _shape_fn(am, miller, name, extra):
+    """resolve (function of one array argument, integer result?) by name for the leading-shape oracle."""
+    if name in ('plane3to4', 'vector3to4', 'plane4to3', 'vector4to3', 'reduce_indices'):
+        return getattr(miller, name)
+    if name in ('vector_primitive_to_conventional', 'vector_conventional_to_primitive'):
+        return lambda x: getattr(miller, name)(x, extra['setting'])
+    box = am.Box(vects=extra['vects'])
+    if name in ('vector_crystal_to_cartesian', 'plane_crystal_to_cartesian'):
+        return getattr(box, name)
+    if name in ('miller.vector_crystal_to_cartesian', 'miller.plane_crystal_to_cartesian'):
+        return lambda x: getattr(miller, name.split('.')[1])(x, box)
+    raise KeyError(name)
+
+
+def _o_shape(ctx, np, am, miller, name, rows, shape, extra):
+    """arrays of any leading shape: f(array) is f applied to every index set on its own, in place.
+    The single-row values are what all other clauses check exactly; here only the plumbing is at stake, so rows
+    are compared with the single-row call of the same function (integers exactly, floats to 1e-13)."""
+    f = _shape_fn(am, miller, name, extra)
+    k = len(rows[0])
+    arr = np.array(rows).reshape(tuple(shape) + (k,))
+    replay = {'op': 'shape', 'fn': name, 'rows': [list(map(int, r)) for r in rows], 'shape': list(shape), 'extra': extra}
+    singles = []
+    for r in rows:
+        v, e = _call(f, list(r))
+        if e is not None:
+            ctx.violate(name + ':leading-shape', f'{name}({list(r)}) raised {e}', replay)
+            return
+        singles.append(np.asarray(v))
+    got, e = _call(f, arr)
+    if e is not None:
+        ctx.violate(name + ':leading-shape', f'{name} raised {e} on an array of shape {arr.shape} whose rows are all '
+                    f'accepted one by one: {arr.tolist()}', replay)
+        return
+    got = np.asarray(got)
+    want = np.array(singles).reshape(tuple(shape) + singles[0].shape)
+    same = got.shape == want.shape and (np.array_equal(got, want) if want.dtype.kind in 'iu' and got.dtype.kind in 'iu'
+                                        else np.allclose(got, want, rtol=1e-13, atol=1e-13))
+    if not same:
+        ctx.violate(name + ':leading-shape', f'{name} on an array of shape {arr.shape}: {arr.tolist()} gives '
+                    f'{got.tolist()}, index set by index set it gives {want.tolist()}', replay)
 
 
 def _o_centering(ctx, np, miller, setting, t):
@@ -929,13 +1014,143 @@ def _o_all_indices(ctx, np, miller, m):
                     {'op': 'all_indices', 'maxindex': m})
 
 
-def _o_string(ctx, np, miller, s, frac, idx):
+_OPEN = {'[': ']', '(': ')', '<': '>', '{': '}'}
+_DIGITS = '0123456789'
+
+
+def _gen_numeral(rng, allow_plus=True):
+    """a decimal integer numeral as a string: 1..3 digits mostly, sometimes up to 6, no leading zeros,
+    sign '-' / none / (rarely) '+'.  -> (text, class)"""
+    nd = rng.choice([1, 1, 1, 2, 2, 2, 3, 3, 4, 6])
+    digits = rng.choice('123456789') + ''.join(rng.choice(_DIGITS) for _ in range(nd - 1))
+    if nd == 1 and rng.random() < 0.25:
+        digits = '0'
+    r = rng.random()
+    sign = '-' if r < 0.45 else ('+' if allow_plus and r < 0.50 else '')
+    return sign + digits, ('multi' if nd > 1 else 'single') + ('+' if sign == '+' else '')
+
+
+def _gen_index_string(rng, it):
+    """a well-formed index string: optional `p/q` prefix, one of the four bracket kinds, 3 or 4 integer numerals
+    (signs, several digits) separated by one or more blanks, optional blanks inside the brackets / between prefix and
+    bracket / after the closing bracket.  Only the TEXT is returned (+ coverage classes): what it shows is read back
+    by `_read_index_string`, not remembered from here."""
+    o = '[(<{'[it % 4]
+    n = 3 if (it // 4) % 2 == 0 else 4
+    messy = (it // 8) % 2 == 1
+    toks, classes = [], set()
+    for _ in range(n):
+        t, c = _gen_numeral(rng)
+        toks.append(t)
+        classes.add(c)
+    sep = (lambda: ' ' * rng.choice([1, 1, 2, 3])) if messy else (lambda: ' ')
+    body = toks[0]
+    for t in toks[1:]:
+        body += sep() + t
+    if messy:
+        body = ' ' * rng.choice([0, 1, 2]) + body + ' ' * rng.choice([0, 1, 2])
+    s = o + body + _OPEN[o]
+    if rng.random() < 0.6:
+        p, _c = _gen_numeral(rng, allow_plus=False)
+        if p.lstrip('-') == '0' and rng.random() < 0.8:
+            p = p.replace('0', '1')
+        q = str(rng.choice([1, 2, 3, 4, 5, 6, 7, 8, 9, 10, 12, 16, 24, 100, 125]))
+        s = p + '/' + q + (' ' * rng.choice([0, 1, 2, 3]) if messy else ' ') + s
+        classes.add('frac')
+    if messy and rng.random() < 0.3:
+        s += ' '
+    classes.add('n%d' % n)
+    classes.add('messy' if messy else 'plain')
+    return s, sorted(classes)
+
+
+def _read_index_string(s):
+    """independent reader of what an index string SHOWS (hand scanner, no numpy, no float, not the code's method):
+    -> (Fraction prefix or None, [int], opening bracket).  Raises ValueError on anything that is not a well-formed
+    index string (then the harness's generator is wrong, not atomman)."""
+    n = len(s)
+    i = 0
+
+    def blanks(i):
+        while i < n and s[i] == ' ':
+            i += 1
+        return i
+
+    def integer(i):
+        sign = 1
+        if i < n and s[i] in '+-':
+            sign = -1 if s[i] == '-' else 1
+            i += 1
+        j = i
+        v = 0
+        while j < n and s[j] in _DIGITS:
+            v = 10 * v + _DIGITS.index(s[j])
+            j += 1
+        if j == i:
+            raise ValueError(f'numeral expected at {i} in {s!r}')
+        return sign * v, j
+
+    i = blanks(i)
+    frac = None
+    if i < n and s[i] not in _OPEN:
+        p, i = integer(i)
+        if i >= n or s[i] != '/':
+            raise ValueError(f"'/' expected at {i} in {s!r}")
+        q, i = integer(i + 1)
+        if q == 0:
+            raise ValueError('zero denominator')
+        frac = Fraction(p, q)
+        i = blanks(i)
+    if i >= n or s[i] not in _OPEN:
+        raise ValueError(f'opening bracket expected at {i} in {s!r}')
+    o = s[i]
+    i += 1
+    vals = []
+    while True:
+        i = blanks(i)
+        if i < n and s[i] == _OPEN[o]:
+            i += 1
+            break
+        v, j = integer(i)
+        if j < n and s[j] != ' ' and s[j] != _OPEN[o]:
+            raise ValueError(f'blank or closing bracket expected at {j} in {s!r}')
+        vals.append(v)
+        i = j
+    if blanks(i) != n:
+        raise ValueError(f'text after the closing bracket in {s!r}')
+    if len(vals) not in (3, 4):
+        raise ValueError(f'{len(vals)} indices in {s!r}')
+    return frac, vals, o
+
+
+def _o_string(ctx, np, miller, s, frac=None, idx=None):
+    """clause 'index strings parse to the numbers they show': what the string shows is read from the string itself
+    by `_read_index_string`; `frac`/`idx` (optional, from older replay files) are only cross-checked."""
+    try:
+        f, shown, _kind = _read_index_string(s)
+    except ValueError as ex:
+        raise cm.InfraError(f'harness: generated index string is not well-formed: {ex}')
+    if idx is not None:
+        f0 = None if frac is None else Fraction(frac[0], frac[1])
+        if list(idx) != shown or (f0 or Fraction(1)) != (f or Fraction(1)):
+            raise cm.InfraError(f'harness: generator and reader disagree on {s!r}: {frac} {idx} vs {f} {shown}')
+    want = [(f if f is not None else Fraction(1)) * i for i in shown]
     r, e = _call(miller.fromstring, s)
-    f = Fraction(1) if frac is None else Fraction(frac[0], frac[1])
-    want = [f * i for i in idx]
-    if e is not None or len(r) != len(want) or not cm.allclose(r.tolist(), want, 4e-16, 0.0):
-        ctx.violate('fromstring:value', f'fromstring({s!r}) = {None if r is None else r.tolist()} ({e}), the string shows '
-                    f'{[str(w) for w in want]}', {'op': 'string', 'string': s, 'frac': frac, 'idx': idx})
+    replay = {'op': 'string', 'string': s}
+    shows = (f'{f} x ' if f is not None else '') + str(shown)
+    if e is not None:
+        ctx.violate('fromstring:value', f'fromstring({s!r}) raised {e}; the string shows {shows}', replay)
+        return
+    arr = np.asarray(r)
+    if arr.ndim != 1 or arr.shape[0] != len(want) or arr.dtype.kind != 'f':
+        ctx.violate('fromstring:value', f'fromstring({s!r}) = {arr.tolist()} (shape {arr.shape}, dtype {arr.dtype}); the '
+                    f'string shows the {len(want)} indices {shows}', replay)
+        return
+    # one rounding for p/q, one for the product; exact when there is no prefix
+    rtol = 0.0 if f is None else 4e-16
+    if not cm.allclose(arr.tolist(), want, rtol, 0.0):
+        ctx.violate('fromstring:value', f'fromstring({s!r}) = {arr.tolist()}; the string shows {shows} = '
+                    f'{[str(w) for w in want]}', replay)
 
 
 def _o_family(ctx, np, fam, args, box):
@@ -959,6 +1174,8 @@ def _guard(ctx, key, replay, fn, *args):
     try:
         with _np().errstate(all='ignore'):
             fn(*args)
+    except cm.InfraError:
+        raise
     except Exception as e:  # noqa
         ctx.violate(key + ':raises', f'{key}: the implementation raised {type(e).__name__}: {e} on {replay}', replay)
 
@@ -997,6 +1214,67 @@ def search(ctx, broken):
     r, e = _call(cells[0][1].plane_crystal_to_cartesian, [0, 0, 0])
     if e != 'err:value':
         ctx.violate('plane_normal:zero', 'the zero plane index vector is not rejected', {'op': 'normal-zero'})
+    # 3b. four-index planes in hexagonal cells denote the same plane; guards
+    M4 = ctx.n(4, 7)
+    quads = [(h, k, -(h + k), l) for h in range(-M4, M4 + 1) for k in range(-M4, M4 + 1) for l in range(-M4, M4 + 1)
+             if (h, k, l) != (0, 0, 0)]
+    def _hexlike(box):       # own reading of 'hexagonal' (a = b, 90, 90, 120) to pick cells that are clearly not
+        a_, b_, c_, al_, be_, ga_ = _params(box)
+        return abs(a_ - b_) < 1e-3 * a_ and abs(al_ - 90) < 0.1 and abs(be_ - 90) < 0.1 and abs(ga_ - 120) < 0.1
+    nonhex = [c for c in cells if c[0] != 'hexagonal' and not _hexlike(c[1])]
+    for hi in range(ctx.n(2, 5) * mult):
+        a, b, c = _generic_lengths(rng)
+        hb = am.Box.hexagonal(a, c)
+        for q in (quads if hi == 0 else rng.sample(quads, ctx.n(200, 1500))):
+            ctx.stats.case('oracle:normal4', (a, c, q))
+            _guard(ctx, 'plane_normal', {'op': 'normal', 'hkl': [q[0], q[1], q[3]], 'quad': list(q),
+                                         'vects': hb.vects.tolist(), 'cell': 'hexagonal'},
+                   _o_normal, ctx, np, hb, 'hexagonal', (q[0], q[1], q[3]), rng, q)
+        for q in rng.sample(quads, ctx.n(40, 300)):
+            label, ob = rng.choice(nonhex)
+            ctx.stats.case('oracle:guard4', (a, c, label, q), nontrivial=False)
+            _guard(ctx, 'plane4_guard', {'op': 'plane4_guard', 'quad': list(q), 'hex': hb.vects.tolist(),
+                                         'other': ob.vects.tolist(), 'otherlabel': label},
+                   _o_plane4_guard, ctx, np, hb, ob, label, q)
+    for _ in range(ctx.n(40, 400) * mult):
+        rows = rng.sample(quads, rng.randint(2, 6))
+        k = rng.randrange(len(rows))
+        ctx.stats.case('oracle:guard-array', (tuple(rows), k), nontrivial=False)
+        _guard(ctx, 'guard_array', {'op': 'guard_array', 'rows': [list(r) for r in rows], 'k': k},
+               _o_guard_array, ctx, np, miller, rows, k)
+    # 3c. arrays of any leading shape, every function of the property
+    hexb = am.Box.hexagonal(*[_generic_lengths(rng)[i] for i in (0, 2)])
+    shape_targets = [('plane3to4', 3, None), ('vector3to4', 3, None), ('plane4to3', 4, None), ('vector4to3', 4, None),
+                     ('reduce_indices', 3, None), ('reduce_indices', 4, None)]
+    for label, box in cells[:7] + cells[-2:]:
+        ex = {'vects': box.vects.tolist(), 'cell': label}
+        shape_targets += [('vector_crystal_to_cartesian', 3, ex), ('plane_crystal_to_cartesian', 3, ex)]
+    exh = {'vects': hexb.vects.tolist(), 'cell': 'hexagonal'}
+    shape_targets += [('vector_crystal_to_cartesian', 4, exh), ('plane_crystal_to_cartesian', 4, exh),
+                      ('miller.vector_crystal_to_cartesian', 3, exh), ('miller.plane_crystal_to_cartesian', 4, exh)]
+    for setting in SETTINGS:
+        shape_targets += [('vector_primitive_to_conventional', 3, {'setting': setting}),
+                          ('vector_conventional_to_primitive', 3, {'setting': setting})]
+    for name, kk, extra in shape_targets:
+        for shape in (SHAPES if not ctx.thorough and not broken else SHAPES * 3):
+            cnt = 1
+            for d in shape:
+                cnt *= d
+            rows = []
+            while len(rows) < cnt:
+                g = rng.choice([1, 1, 2, 3, 5])
+                if kk == 3:
+                    x = [g * rng.randint(-6, 6) for _ in range(3)]
+                else:
+                    h, k_ = g * rng.randint(-5, 5), g * rng.randint(-5, 5)
+                    x = [h, k_, -(h + k_), g * rng.randint(-6, 6)]
+                if name == 'reduce_indices' and kk == 4 and rng.random() < 0.5:
+                    x[2] = g * rng.randint(-6, 6)
+                if any(x[i] for i in ((0, 1, 2) if kk == 3 else (0, 1, 3))):
+                    rows.append(x)
+            ctx.stats.case('oracle:shape', (name, shape, str(extra), tuple(map(tuple, rows))))
+            _guard(ctx, name + ':leading-shape', {'op': 'shape', 'fn': name, 'rows': rows, 'shape': list(shape), 'extra': extra},
+                   _o_shape, ctx, np, am, miller, name, rows, shape, extra)
     # 4. centering
     for setting in SETTINGS:
         _guard(ctx, 'centering:det', {'op': 'centering_det', 'setting': setting}, _o_centering_det, ctx, np, miller, setting)
@@ -1034,12 +1312,18 @@ def search(ctx, broken):
         ctx.stats.case('oracle:all_indices', m)
         _guard(ctx, 'all_indices', {'op': 'all_indices', 'maxindex': m}, _o_all_indices, ctx, np, miller, m)
     # 6. strings
-    for it in range(ctx.n(800, 8000) * mult):
-        idx = [rng.randint(-N, N) for _ in range(rng.choice([3, 4]))]
-        frac = None if rng.random() < 0.4 else (rng.choice([1, 2, 3, -1, 5, 7]), rng.choice([1, 2, 3, 4, 6, 8, 9]))
-        s = _render(rng, frac, BRACKETS[it % 4], idx, messy=(it % 2 == 0))
+    #    own generator (sign, several digits, prefix, bracket kind, 3|4 indices, blanks) and own reader of the text
+    seen_classes = {}
+    for it in range(ctx.n(1600, 16000) * mult):
+        s, classes = _gen_index_string(rng, it)
+        for c in classes:
+            seen_classes[c] = seen_classes.get(c, 0) + 1
         ctx.stats.case('oracle:string', s)
-        _guard(ctx, 'fromstring', {'op': 'string', 'string': s, 'frac': frac, 'idx': idx}, _o_string, ctx, np, miller, s, frac, idx)
+        _guard(ctx, 'fromstring', {'op': 'string', 'string': s}, _o_string, ctx, np, miller, s)
+    for s in ('[1 0 0]', '1/2 [1 1 0]', '[0 0 0 1]', '1/3 [1 1 -2 0]'):       # the docstring's examples
+        ctx.stats.case('oracle:string', s)
+        _guard(ctx, 'fromstring', {'op': 'string', 'string': s}, _o_string, ctx, np, miller, s)
+    ctx.extra['string_classes'] = seen_classes
     # 7. families
     for _ in range(ctx.n(40, 400) * mult):
         for fam, args, box in _family_cells(rng):
@@ -1060,7 +1344,13 @@ def _replay(ctx, payload):
     elif op == 'same_direction':
         _o_same_direction(ctx, np, miller, am.Box(vects=r['vects']), r['idx'])
     elif op == 'normal':
-        _o_normal(ctx, np, am.Box(vects=r['vects']), r.get('cell', '?'), r['hkl'], rng)
+        _o_normal(ctx, np, am.Box(vects=r['vects']), r.get('cell', '?'), r['hkl'], rng, r.get('quad'))
+    elif op == 'plane4_guard':
+        _o_plane4_guard(ctx, np, am.Box(vects=r['hex']), am.Box(vects=r['other']), r.get('otherlabel', '?'), r['quad'])
+    elif op == 'guard_array':
+        _o_guard_array(ctx, np, miller, r['rows'], r['k'])
+    elif op == 'shape':
+        _o_shape(ctx, np, am, miller, r['fn'], r['rows'], tuple(r['shape']), r.get('extra'))
     elif op == 'centering':
         _o_centering(ctx, np, miller, r['setting'], r['idx'])
     elif op == 'centering_det':
@@ -1072,7 +1362,7 @@ def _replay(ctx, payload):
     elif op == 'reduce_shape':
         _o_reduce_shape(ctx, np, miller, r['rows'], tuple(r['shape']))
     elif op == 'string':
-        _o_string(ctx, np, miller, r['string'], r['frac'], r['idx'])
+        _o_string(ctx, np, miller, r['string'], r.get('frac'), r.get('idx'))
     elif op == 'family':
         fam, args = r['family'], r['args']
         ctor = {'cubic': am.Box.cubic, 'hexagonal': am.Box.hexagonal, 'tetragonal': am.Box.tetragonal,
